@@ -1642,11 +1642,7 @@ func c08PairSet(c *Ctx, r *RuleResult) {
 			}
 		case underFlag != nil && *underFlag:
 			// exclusive query: any entry suffices (constant true), returning the stored flag is wrong direction
-			if cst, ok := v.(*ssa.Const); !(ok && cst.Value != nil && constant.BoolVal(cst.Value)) {
-				if !isNotStored {
-					// returning `result` (stored exclusivity) under exclusive query = only exclusive entries satisfy: incomplete but safe? it re-compares; accept
-				}
-			}
+			// (termination of the comparison is C02.R4's business: c02PairMemoMonotone)
 		default:
 			// not under a branch on the flag: phi or expression — require it to mention the flag
 		}
@@ -2192,4 +2188,55 @@ func valueKindConst(p *Program, name string) int64 {
 		}
 	}
 	return -1
+}
+
+// c02PairMemoMonotone (C02.R4): the pair cache is overwritten by every comparison (Add stores its flag) and a
+// non-exclusive query is satisfied only by a non-exclusive entry. The recursion it gates ends only if the cache is
+// monotone in the other direction: an exclusive query must be satisfied by ANY entry. If it looks at the stored flag
+// instead, a pair recorded non-exclusively is "not yet compared" for an exclusive query, the comparison is repeated and
+// flips the entry, the next non-exclusive query repeats it again — two fragments that spread each other recurse until
+// the stack overflows.
+func c02PairMemoMonotone(c *Ctx, r *RuleResult) {
+	p := c.P
+	has := p.Func("rules.(*pairSet).Has")
+	if has == nil {
+		return
+	}
+	var flag *ssa.Parameter
+	for _, prm := range has.Params {
+		if b, ok := prm.Type().Underlying().(*types.Basic); ok && b.Kind() == types.Bool {
+			flag = prm
+		}
+	}
+	if flag == nil {
+		return
+	}
+	n := 0
+	for _, ret := range returnsOf(has) {
+		v := ret.Results[0]
+		if cst, ok := v.(*ssa.Const); ok {
+			_ = cst
+			continue // constants: `false` before an entry was found, `true` for any entry
+		}
+		exclusive, found := false, false
+		for _, cd := range condsAt(ret.Block()) {
+			if cd.V == ssa.Value(flag) && cd.True {
+				exclusive = true
+			}
+			if ex, ok := cd.V.(*ssa.Extract); ok && ex.Index == 1 && cd.True {
+				if _, isL := ex.Tuple.(*ssa.Lookup); isL {
+					found = true
+				}
+			}
+		}
+		if !exclusive {
+			continue
+		}
+		n++
+		_ = found
+		r.Fail(ret.Pos(), p.FuncName(has), "an exclusive query is answered from the stored flag", "for areMutuallyExclusive=true the cache answers with a value computed from the stored entry instead of 'any entry will do': a pair recorded by a non-exclusive comparison counts as not compared, is compared again and overwritten, and the next non-exclusive query finds an exclusive entry — fragments that spread each other flip the entry forever and the recursion never ends")
+	}
+	if n == 0 {
+		r.OK("pairSet.Has: an exclusive query is satisfied by any entry", "the cache only grows stronger; the recursion it gates ends")
+	}
 }
